@@ -93,7 +93,16 @@ func TestC19(t *testing.T) {
 		bb := b
 		bb.MinShards, bb.MaxShards = 0, 4
 		A := GenReplica(t, bb, opt, targets, "A-")
-		switch rapid.IntRange(0, 7).Draw(t, "aFault") {
+		manyStaleA := false
+		switch rapid.IntRange(0, 9).Draw(t, "aFault") {
+		case 8:
+			// a big replica A all of whose shards run an old configuration (a reload just happened) and do not take
+			// the new one
+			manyStaleA = true
+			A = ReplicaSpec{}
+			for i, n := 0, rapid.IntRange(30, 40).Draw(t, "manyStale"); i < n; i++ {
+				A.Shards = append(A.Shards, ShardSpec{Ready: true, StatusOK: true, Runtime1OK: true, HashEqual: false, Push: rapid.SampledFrom([]string{"fail", "still"}).Draw(t, fmt.Sprintf("A-s%d-push", i)), Runtime2OK: true, Idle: "fresh"})
+			}
 		case 0:
 			A.ListFail = true
 		case 1:
@@ -177,6 +186,9 @@ func TestC19(t *testing.T) {
 		}
 		if allUnready {
 			cls = append(cls, "A-all-unready")
+		}
+		if manyStaleA {
+			cls = append(cls, "A-has-30-to-40-shards-with-an-old-configuration")
 		}
 		if slowA && len(A.Shards) > 0 && !allUnready && !A.ListFail {
 			nt = true
